@@ -114,6 +114,16 @@ CHECKS = {
         "'Alias') are keyed by invariant, failure kind and diagnostic code.",
    technique="TLA+ diagnostics-protocol invariants + TLC trace validation of the real frontend and CLI",
    ref="§4 C07"),
+ "C02": dict(
+   text="Pipeline.tla states the compilation pipeline (frontend, codegen, LLVM parse+verify, object emission, link) with the property that once the frontend accepts, every later "
+        "stage ends ok. Cells = every unary/binary/ternary/cast/type-check operator x tuples over 20 operand type classes (primitives, lists of each, Kombination, its list, Variable, "
+        "type aliases, type definitions); the real checker decides acceptance and the result type; every accepted cell is placed in every value context that type admits (boxing, "
+        "initialiser, assignment, value argument, return, condition, list element, numeric coercions, print) and driven through kddp -> .ll, llvm-as, kddp -> .o at -O1/-O2 and the "
+        "gcc link; TLC validates one pipeline trace per (cell, context). Failing batches are bisected to single cells.",
+   note="quick: all unary/cast/type-check cells and a seeded third of the binary/ternary tables, one random context per cell plus all contexts for 15 %; thorough: everything. "
+        "The contexts are built from the checker's own result type (the property is about lowering vs. assigned type).",
+   technique="TLA+ pipeline invariant + TLC trace validation over the exhaustive operator x type-class x context table",
+   ref="§4 C02"),
 }
 PENDING = {}
 
